@@ -36,7 +36,7 @@ func (l *e2eLog) add(e jev) {
 }
 
 type cutPlan struct {
-	kind   string // "none" | "rst" | "fin" | "handler"
+	kind   string // "none" | "rst" | "fin" | "handler" | "rst-quiet" (the client loses the connection, the server only notices at its next write)
 	offset int    // cut when this many response bytes have been written
 	after  time.Duration
 }
@@ -50,6 +50,45 @@ type cutConn struct {
 	cut     bool
 	cancel  context.CancelFunc // ends the handler (set by the handler)
 	log     *e2eLog
+	quiet   bool          // after the cut the server's reads block instead of failing: it has not noticed
+	release chan struct{} // closed when the server gives up the connection (read deadline, Close)
+	relOnce sync.Once
+}
+
+func (c *cutConn) doRelease() { c.relOnce.Do(func() { close(c.release) }) }
+
+// Read hides a quiet cut from the server: its pending read just does not return until the server itself gives the
+// connection up (net/http aborts the background read through SetReadDeadline when the handler is done).
+func (c *cutConn) Read(p []byte) (int, error) {
+	n, err := c.Conn.Read(p)
+	if err != nil {
+		c.mu.Lock()
+		q := c.cut && c.quiet
+		c.mu.Unlock()
+		if q {
+			<-c.release
+		}
+	}
+	return n, err
+}
+
+func (c *cutConn) SetReadDeadline(t time.Time) error {
+	if !t.IsZero() && !t.After(time.Now()) {
+		c.doRelease()
+	}
+	return c.Conn.SetReadDeadline(t)
+}
+
+func (c *cutConn) SetDeadline(t time.Time) error {
+	if !t.IsZero() && !t.After(time.Now()) {
+		c.doRelease()
+	}
+	return c.Conn.SetDeadline(t)
+}
+
+func (c *cutConn) Close() error {
+	c.doRelease()
+	return c.Conn.Close()
 }
 
 func (c *cutConn) doCut(kind, why string) {
@@ -59,11 +98,14 @@ func (c *cutConn) doCut(kind, why string) {
 		return
 	}
 	c.cut = true
+	if kind == "rst-quiet" {
+		c.quiet = true
+	}
 	cancel := c.cancel
 	c.mu.Unlock()
 	c.log.add(jev{"e": "cut", "c": c.id, "kind": kind, "at": c.written, "why": why})
 	switch kind {
-	case "rst":
+	case "rst", "rst-quiet":
 		if tc, ok := c.Conn.(*net.TCPConn); ok {
 			tc.SetLinger(0)
 		}
@@ -132,10 +174,14 @@ func (l *cutListener) Accept() (net.Conn, error) {
 	}
 	l.mu.Lock()
 	l.n++
-	cc := &cutConn{Conn: c, id: l.n, log: l.log, plan: cutPlan{kind: "none"}}
+	cc := &cutConn{Conn: c, id: l.n, log: l.log, plan: cutPlan{kind: "none"}, release: make(chan struct{})}
 	if l.enabled && l.budget > 0 {
 		l.budget--
-		switch l.rng.Intn(7) {
+		switch l.rng.Intn(9) {
+		case 7:
+			cc.plan = cutPlan{kind: "rst-quiet", offset: 100 + l.rng.Intn(900)}
+		case 8:
+			cc.plan = cutPlan{kind: "rst-quiet", after: time.Duration(300+l.rng.Intn(3000)) * time.Microsecond}
 		case 0, 1:
 			cc.plan = cutPlan{kind: "rst", offset: 1 + l.rng.Intn(900)}
 		case 2:
@@ -149,6 +195,11 @@ func (l *cutListener) Accept() (net.Conn, error) {
 		case 6:
 			cc.plan = cutPlan{kind: "handler", after: time.Duration(500+l.rng.Intn(3000)) * time.Microsecond}
 		}
+	}
+	// a third of the byte-offset cuts come late in a connection: several KB of events were consumed before
+	// (the client's 4 KiB scanner buffer has been refilled, the cut falls into a later event)
+	if cc.plan.offset > 0 && cc.plan.kind != "none" && l.rng.Intn(3) == 0 {
+		cc.plan.offset += 2000 + l.rng.Intn(6000)
 	}
 	l.conns = append(l.conns, cc)
 	plan := cc.plan
@@ -196,8 +247,12 @@ func e2eMessage(k int, auto bool) (m *sse.Message, want e2eMsg) {
 		want.data = "p" + strconv.Itoa(k)
 	case 2:
 		m.AppendComment("a comment")
-		m.AppendData("id: looks like a field " + strconv.Itoa(k) + strings.Repeat("x", k%50*20))
-		want.data = "id: looks like a field " + strconv.Itoa(k) + strings.Repeat("x", k%50*20)
+		size := k % 50 * 20
+		if k%10 == 6 {
+			size = 6000 // larger than the client's initial scanner buffer: a cut inside it comes after the buffer was refilled
+		}
+		m.AppendData("id: looks like a field " + strconv.Itoa(k) + strings.Repeat("x", size))
+		want.data = "id: looks like a field " + strconv.Itoa(k) + strings.Repeat("x", size)
 	case 3:
 		m.AppendData("", "after an empty line "+strconv.Itoa(k))
 		m.Retry = time.Duration(k) * time.Millisecond
@@ -340,7 +395,7 @@ func runE2E(seed int64, total int) (evs []jev, incomplete string) {
 	if cur != nil && rng.Intn(2) == 0 {
 		go func() {
 			time.Sleep(time.Duration(rng.Intn(2000)) * time.Microsecond)
-			cur.doCut([]string{"rst", "fin", "handler"}[int(seed)%3], "first")
+			cur.doCut([]string{"rst", "fin", "handler", "rst-quiet"}[int(seed)%4], "first")
 		}()
 	}
 	curConn := func() *cutConn {
@@ -384,7 +439,7 @@ func runE2E(seed int64, total int) (evs []jev, incomplete string) {
 			time.Sleep(time.Duration(d*150) * time.Microsecond)
 		}
 		if rng.Intn(7) == 0 {
-			quietCut([]string{"rst", "fin", "handler"}[rng.Intn(3)])
+			quietCut([]string{"rst", "fin", "handler", "rst-quiet"}[rng.Intn(4)])
 		}
 	}
 	cl.mu.Lock()
